@@ -960,8 +960,10 @@ LITERALS = ['0', '007', '1.5', '.5', '5.', '1..2', '1.2.3', '2^3', '2^0', '0^0',
             '9^99999', '99999^99999', '-(9^99999)', '0.0^0', '0^00', '1%' + '+1%' * 50, '1' + '0' * 308 + '.0', '1' + '0' * 309 + '.0',
             '.' + '0' * 400 + '1', '1' + '0' * 309 + '%', '00000000000000000000001', '1.' + '0' * 5000, 'ROUND(' + '9' * 400 + ',2)',
             'TEXT(' + '9' * 400 + ',"0")', '1/' + '9' * 400, '"' + '9' * 5000 + '"+1']
-# exact integer power of a literal: the exponent's DIGITS drive time and memory exponentially
-LITERAL_POW = ['9^99999999']
+# power of two literals: computed exactly the exponent's DIGITS would drive time and memory exponentially (9^99999999 did
+# not return before /repo c22ca45); from 2^1024 on the production now answers #NUM! at once - kept as regressions, each
+# one a case of its own so that an overrun is attributed to it
+LITERAL_POW = ['9^99999999', '-(9^99999999)', 'SUM(1,9^99999999)', '2^' + '9' * 40, '9' * 40 + '^' + '9' * 40, '3^1023', '99^170']
 
 NEST_SHAPES = [('(', '1', ')'), ('{', '1', '}'), ('SUM(', '1', ')'), ('IF(1,', '1', ')'), ('-', '1', ''), ('(', '', ''), ('', '', ')'),
                ('{', '', ''), ('', '1', '}'), ('SUM(', '1', ''), ('"', '', ''), ('', '1', '+1'), ('', '1', '&1'), ('', '1', '=1'),
@@ -989,6 +991,23 @@ _tier = ['quick']
 
 def _key(case):
     return json.dumps(case, sort_keys=True)
+
+
+def redos_inputs():
+    res = []
+    units = ['\\a', '\\"', "\\'", '\\\\', 'a', 'A1', '$A', 'a.', '1.', '#A', '""', "''", '(', '-', 'a_', '.a', '%', '<', '<>', ' ', 'é']
+    pres = ['"', "'", '', '#', '$', 'LEN("C:', "T('", 'A', '1', '"a', 'SUM(']
+    posts = ['', '!', '(', ')', '$']
+    for n in (24, 40, 64):
+        for pre in pres:
+            for u in units:
+                for post in posts:
+                    res.append(pre + u * n + post)
+    for n in (500, 3000):
+        for pre in ('"', "'", '', '#'):
+            for u in units:
+                res.append(pre + u * n)
+    return res
 
 
 def cases(rng, ctx):
@@ -1023,6 +1042,10 @@ def cases(rng, ctx):
     out.append({'kind': 'strings', 'stream': 'literal', 'items': LITERALS})
     for f in LITERAL_POW:
         out.append({'kind': 'strings', 'stream': 'literal-pow', 'items': [f]})
+    # near-misses of every token rule, repeated: inputs on which a backtracking regular expression that admits two
+    # decompositions of the same text (e.g. an unclosed quoted literal followed by backslash pairs) takes exponential time
+    for f in redos_inputs():
+        out.append({'kind': 'strings', 'stream': 'redos', 'items': [f]})
 
     # ---- (b) unicode, long
     uni = [gen_unicode(rng) for _ in range((20000 if thorough else 2500) * scale)]
